@@ -366,3 +366,51 @@ pub fn unit_writer(depth: usize, thorough: bool) -> Report {
         }
     }
 }
+
+
+/// Boundary lattice for the payload encoders (bounded companion of the Kani harnesses k_w_*; gives concrete inputs
+/// fast): every value 2^k + d, -(2^k) + d for k in 0..=63, d in -2..=2, plus extremes, through the REAL writer and
+/// the REAL decoders / iterator.
+pub fn unit_payload() -> Report {
+    let table = bs::doc_table();
+    bs::set_table(table.clone());
+    let mut rep = Report::new("bx_payload");
+    rep.notes.push("BOUNDED: boundary lattice 2^k + d and -(2^k) + d, k in 0..=63, d in -2..=2, plus 0, MIN, MAX for u64 / i64; float bit patterns at exponent / mantissa boundaries".to_string());
+    let mut us: Vec<u64> = vec![0, u64::MAX];
+    let mut is: Vec<i64> = vec![0, i64::MIN, i64::MAX];
+    for k in 0..64u32 { for d in -2i128..=2 {
+        let v = (1i128 << k) + d; if v >= 0 && v <= u64::MAX as i128 { us.push(v as u64); }
+        if v >= i64::MIN as i128 && v <= i64::MAX as i128 { is.push(v as i64); }
+        let n = -(1i128 << k) + d; if n >= i64::MIN as i128 && n <= i64::MAX as i128 { is.push(n as i64); }
+    } }
+    let fs: Vec<u64> = vec![0, 1, 0x8000_0000_0000_0000, 0x3ff8_0000_0000_0000, 0x7ff0_0000_0000_0000, 0xfff0_0000_0000_0000, 0x7ff8_0000_0000_0001, 0x7fef_ffff_ffff_ffff, 0x0010_0000_0000_0000, 0x000f_ffff_ffff_ffff, 0x4009_21fb_5444_2d18, u64::MAX];
+    let one = |t: T, rep: &mut Report| {
+        let mut w = TagWriter::new(ScriptDest::default());
+        let r0 = w.write(&T::M(bs::ROOT, Master::Start));
+        let r1 = w.write(&t);
+        let r2 = w.write(&T::M(bs::ROOT, Master::End));
+        rep.cases += 1; rep.nontrivial += 1;
+        let ok_w = r0.is_ok() && r1.is_ok() && r2.is_ok();
+        rep.clause("C16/C01: every u64 / i64 / f64 element is accepted by the writer", ok_w, || rf::show(&t));
+        if !ok_w { return; }
+        let bytes = w.dest.data.clone();
+        // Root header is 2 bytes (id 0x81, one size byte); the element: 1 id byte, 1 size byte, payload
+        let want = payload(&t).unwrap();
+        let got = bytes.get(4..).map(|x| x.to_vec()).unwrap_or_default();
+        rep.clause("C16: integers use the minimal 1/2/4/8-byte big-endian (two's complement) width, floats 8 bytes", got == want, || format!("{} bytes={} want-payload={}", rf::show(&t), rf::hex(&bytes), rf::hex(&want)));
+        let dec_ok = match &t {
+            T::U(_, v) => matches!(crate::tools::arr_to_u64(&got), Ok(x) if x == *v),
+            T::I(_, v) => matches!(crate::tools::arr_to_i64(&got), Ok(x) if x == *v),
+            T::F(_, v) => matches!(crate::tools::arr_to_f64(&got), Ok(x) if x.to_bits() == v.to_bits()),
+            _ => true,
+        };
+        rep.clause("C16: the payload decoders invert the writer's encoding (identical value, floats bit for bit)", dec_ok, || format!("{} payload={}", rf::show(&t), rf::hex(&got)));
+        let (items, err) = read_back(&bytes, false);
+        let same = err.is_none() && items.len() == 3 && rf::tag_eq(&items[1], &t);
+        rep.clause("C01/C16: the element reads back (strict iterator) with the identical value", same, || format!("{} bytes={} got=[{}] err={:?}", rf::show(&t), rf::hex(&bytes), items.iter().map(rf::show).collect::<Vec<_>>().join(","), err));
+    };
+    for v in us { one(T::U(bs::UINT, v), &mut rep); }
+    for v in is { one(T::I(bs::INT, v), &mut rep); }
+    for b in fs { one(T::F(bs::FLT, f64::from_bits(b)), &mut rep); }
+    rep
+}
